@@ -1140,7 +1140,7 @@ class Fxp():
                 # the limits of the word are not exact in float64: python integers are clipped instead
                 new_val = np.array(list(map(int, new_val.flatten())), dtype=object).reshape(new_val.shape)
             if isinstance(new_val, np.ndarray) and new_val.dtype == object:
-                val = np.clip(new_val, val_min, val_max)
+                val = np.asarray(np.clip(new_val, val_min, val_max), dtype=object)   # (clip returns a python scalar for a 0-d object array)
             else:
                 val = utils.clip(new_val, val_min, val_max)
 
